@@ -1,5 +1,804 @@
-//! C13 — not built yet.
+//! C13 — hyphenation positions are exactly Liang's; exceptions always win; case does not matter.
+//! Engine: BEX. Subject: `hyphenate::Hyphenator::{load_patterns, insert_exception, calculate_indices}`.
+//! Oracle: `reftex::liang` (patterns matched against `.word.` at every alignment, tex.web §919-931;
+//! `\hyphenation` entries §934-940). DESIGN.md §3 C13.
+
+use hyphenate::{AsciiLowerCaser, Hyphenator};
+use reftex::liang::{self, ascii_lc, Liang, EDGE};
+use serde_json::{json, Value};
+use vcore::{catch, Acc, Ctx, Level};
+
+// ---------------------------------------------------------------- one configuration, one lookup
+
+#[derive(Clone, Debug, Default)]
+struct Config {
+    patterns: Vec<String>,
+    exceptions: Vec<String>,
+    /// `insert_exception` calls come before `load_patterns` (both orders are legal in INITEX)
+    exceptions_first: bool,
+}
+
+impl Config {
+    fn json(&self, word: &str) -> Value {
+        json!({"kind": "lookup", "patterns": self.patterns, "exceptions": self.exceptions, "exceptions_first": self.exceptions_first, "word": word,
+               "reproduce": format!("let mut h = hyphenate::Hyphenator::default(); {} h.calculate_indices(&hyphenate::AsciiLowerCaser::default(), {:?}).collect::<Vec<_>>()",
+                    self.build_text(), word)})
+    }
+    fn build_text(&self) -> String {
+        let p = format!("h.load_patterns({:?});", self.patterns.join(" "));
+        let e: String = self.exceptions.iter().map(|e| format!("h.insert_exception({e:?});")).collect();
+        if self.exceptions_first {
+            format!("{e} {p}")
+        } else {
+            format!("{p} {e}")
+        }
+    }
+    fn build_real(&self) -> Hyphenator {
+        let mut h = Hyphenator::default();
+        if self.exceptions_first {
+            for e in &self.exceptions {
+                h.insert_exception(e);
+            }
+        }
+        // one call per pattern and one call with the whole set must mean the same; alternate by size
+        if self.patterns.len() % 2 == 0 {
+            h.load_patterns(&self.patterns.join(" "));
+        } else {
+            for p in &self.patterns {
+                h.load_patterns(p);
+            }
+        }
+        if !self.exceptions_first {
+            for e in &self.exceptions {
+                h.insert_exception(e);
+            }
+        }
+        h
+    }
+    /// The model; `None` when the configuration is outside the domain (duplicate pattern, TeX §963;
+    /// or something TeX rejects as "Nonletter"/"Not a letter").
+    fn build_model(&self) -> Option<Liang> {
+        let mut l = Liang::new();
+        for p in &self.patterns {
+            l.add_pattern(p, &ascii_lc).ok()?;
+        }
+        for e in &self.exceptions {
+            if !l.add_exception(e, &ascii_lc) {
+                return None;
+            }
+        }
+        Some(l)
+    }
+}
+
+/// What the model says about one lower-cased word, computed once and shared by its case variants.
+struct Expect {
+    positions: Vec<usize>,
+    /// D11: the adjusted expectation when the finding's predicate holds on the case
+    d11_adjusted: Option<Vec<usize>>,
+    /// D11b: a fully anchored pattern with the exception's letters is loaded after the exception
+    d11b_adjusted: Option<Vec<usize>>,
+    /// D11c: the entry that TeX would find for this word was written with an upper-case letter
+    d11c_adjusted: Option<Vec<usize>>,
+    nontrivial: bool,
+}
+
+fn expect(cfg: &Config, model: &Liang, wl: &[char], acc: &mut Acc) -> Expect {
+    let n = wl.len();
+    let hyf = model.hyf(wl);
+    let positions: Vec<usize> = (1..n).filter(|j| hyf[*j] % 2 == 1).collect();
+    let ps = model.pattern_scores(wl);
+    let exc = model.exception_for(wl);
+    let interior = |v: &[u8]| (1..n).any(|j| v[j] != 0);
+    let nontrivial = interior(&ps) || exc.is_some();
+    // ---- collision counters, from the case and the model only
+    let mut per: Vec<Vec<u8>> = Vec::with_capacity(model.patterns.len());
+    for p in &model.patterns {
+        per.push(liang::pattern_scores(p, wl));
+    }
+    for j in 1..n {
+        let nz = per.iter().filter(|v| v[j] != 0).count();
+        if nz >= 2 {
+            acc.count("two_patterns_score_same_slot");
+        }
+        if ps[j] != 0 && ps[j] % 2 == 0 && per.iter().any(|v| v[j] % 2 == 1) {
+            acc.count("even_digit_inhibits_odd");
+        }
+    }
+    let text: String = wl.iter().collect();
+    for (p, v) in model.patterns.iter().zip(&per) {
+        let anchored = p.key.first() == Some(&EDGE) || p.key.last() == Some(&EDGE);
+        let matched = v.iter().any(|d| *d != 0) || pattern_matches(p, wl);
+        if anchored && matched {
+            acc.count("anchored_pattern_matches");
+        }
+        if anchored && !matched {
+            let bare: String = p.key.iter().filter(|c| **c != EDGE).collect();
+            if text.contains(&bare) {
+                acc.count("anchor_rejects_inner_occurrence");
+            }
+        }
+    }
+    if model.patterns.len() >= 2 {
+        for a in 0..model.patterns.len() {
+            for b in 0..model.patterns.len() {
+                if a != b && model.patterns[b].key.starts_with(&model.patterns[a].key) && pattern_matches(&model.patterns[a], wl) && pattern_matches(&model.patterns[b], wl) {
+                    acc.count("prefix_sharing_patterns_both_match");
+                }
+            }
+        }
+    }
+    let mut d11_adjusted = None;
+    let mut d11b_adjusted = None;
+    if let Some(e) = exc {
+        let pat_pos: Vec<usize> = (1..n).filter(|j| ps[*j] % 2 == 1).collect();
+        if pat_pos != positions {
+            acc.count("exception_contradicts_patterns");
+        }
+        // D11 predicate (DESIGN §4.1): the case-folded word is in the exception list and some pattern
+        // digit > 6 (or > 7 at a listed hyphen) matches it.
+        let applies = (0..=n).any(|j| if e.positions.contains(&j) { ps[j] > 7 } else { ps[j] > 6 });
+        if applies {
+            acc.count("exception_word_with_pattern_digit_gt6");
+            let mut adj = model.clone();
+            adj.exceptions_as_patterns = true;
+            let h = adj.hyf(wl);
+            d11_adjusted = Some((1..n).filter(|j| h[*j] % 2 == 1).collect());
+        }
+        // D11b predicate: patterns are loaded after the exceptions and one of them is the fully
+        // anchored pattern on exactly the exception's letters (same trie node): the exception is lost.
+        if cfg.exceptions_first {
+            let mut key = vec![EDGE];
+            key.extend(e.letters.iter().copied());
+            key.push(EDGE);
+            if model.patterns.iter().any(|p| p.key == key) {
+                acc.count("exception_then_same_anchored_pattern");
+                d11b_adjusted = Some(pat_pos);
+            }
+        }
+    }
+    // D11c predicate: the entry found for this word (TeX §937 stores lc_code) contains an upper-case
+    // letter in the configuration's text. Adjusted model: entries are stored as written, so only
+    // entries without upper-case letters can ever be found.
+    let mut d11c_adjusted = None;
+    if let Some(e) = exc {
+        let written_upper = cfg.exceptions.iter().rev().find(|t| t.chars().filter(|c| *c != '-').map(|c| c.to_ascii_lowercase()).collect::<Vec<char>>() == e.letters).map(|t| t.chars().any(|c| c.is_ascii_uppercase())).unwrap_or(false);
+        if written_upper {
+            let mut adj = Liang::new();
+            adj.patterns = model.patterns.clone();
+            for t in &cfg.exceptions {
+                if !t.chars().any(|c| c.is_ascii_uppercase()) {
+                    adj.add_exception(t, &ascii_lc);
+                }
+            }
+            let h = adj.hyf(wl);
+            d11c_adjusted = Some((1..n).filter(|j| h[*j] % 2 == 1).collect());
+        }
+    }
+    Expect { positions, d11_adjusted, d11b_adjusted, d11c_adjusted, nontrivial }
+}
+
+fn pattern_matches(p: &liang::Pattern, wl: &[char]) -> bool {
+    let mut d: Vec<char> = vec![EDGE];
+    d.extend(wl.iter().copied());
+    d.push(EDGE);
+    d.windows(p.key.len()).any(|w| w == p.key.as_slice())
+}
+
+/// Run every word of `words` (grouped by lower-case form) through one configuration.
+fn check_config(idx: u64, cfg: &Config, words: &[(Vec<char>, Vec<String>)], acc: &mut Acc) {
+    let Some(model) = cfg.build_model() else {
+        acc.skipped += 1;
+        acc.count("skipped_duplicate_pattern");
+        return;
+    };
+    let real = match catch(|| cfg.build_real()) {
+        Ok(h) => h,
+        Err(p) => {
+            acc.eval();
+            acc.fail(idx, cfg.json(""), "a hyphenator", p.describe(), "building the hyphenator panicked");
+            return;
+        }
+    };
+    let lc = AsciiLowerCaser::default();
+    for (wl, variants) in words {
+        let ex = expect(cfg, &model, wl, acc);
+        let class = format!("n={} at={:?}{}", wl.len().min(8), if wl.len() <= 8 { ex.positions.clone() } else { vec![ex.positions.len()] }, if model.exception_for(wl).is_some() { " exc" } else { "" });
+        for w in variants {
+            acc.eval();
+            if ex.nontrivial {
+                acc.nontrivial();
+                if w.chars().any(|c| c.is_ascii_uppercase()) {
+                    acc.count("upper_case_word_nontrivial");
+                }
+            }
+            acc.class(&class);
+            match catch(|| real.calculate_indices(&lc, w).collect::<Vec<usize>>()) {
+                Err(p) => acc.fail(idx, cfg.json(w), format!("{:?}", ex.positions), p.describe(), "calculate_indices panicked"),
+                Ok(got) => {
+                    if got == ex.positions {
+                        continue;
+                    }
+                    if ex.d11_adjusted.as_ref() == Some(&got) {
+                        acc.known("D11", idx, || json!({"case": cfg.json(w), "model": ex.positions, "observed": got, "adjusted_model": "exception = pattern .word. with digits 6/7"}));
+                    } else if ex.d11b_adjusted.as_ref() == Some(&got) {
+                        acc.known("D11b", idx, || json!({"case": cfg.json(w), "model": ex.positions, "observed": got, "adjusted_model": "the exception entry is overwritten by the later fully anchored pattern on the same letters"}));
+                    } else if ex.d11c_adjusted.as_ref() == Some(&got) {
+                        acc.known("D11c", idx, || json!({"case": cfg.json(w), "model": ex.positions, "observed": got, "adjusted_model": "exception entries are stored as written (no lc_code), so an entry with an upper-case letter is never found"}));
+                    } else {
+                        let note = if ex.d11_adjusted.is_some() {
+                            "positions differ; the D11 predicate holds but the observation is not the D11 behaviour either"
+                        } else if model.exception_for(wl).is_some() {
+                            "an exception word is not hyphenated as listed"
+                        } else {
+                            "positions differ from Liang's definition"
+                        };
+                        acc.fail(idx, cfg.json(w), format!("{:?}", ex.positions), format!("{got:?}"), note);
+                    }
+                }
+            }
+        }
+    }
+}
+
+// ---------------------------------------------------------------- enumerators
+
+/// All patterns with 1..=maxlen letters over {a,b}, optional "." at either end, one digit choice from
+/// `menu` in each of the len+1 slots, at least one digit. Shortest first.
+fn pattern_universe(maxlen: usize, menu: &[Option<u8>]) -> Vec<String> {
+    let mut out = vec![];
+    for len in 1..=maxlen {
+        for lm in 0..(1u32 << len) {
+            for anchors in 0..4u32 {
+                let radices = vec![menu.len() as u64; len + 1];
+                for di in 0..vcore::product(&radices) {
+                    let d = vcore::digits(di, &radices);
+                    if d.iter().all(|x| menu[*x as usize].is_none()) {
+                        continue;
+                    }
+                    let mut p = String::new();
+                    if anchors & 1 == 1 {
+                        p.push('.');
+                    }
+                    for i in 0..len {
+                        if let Some(v) = menu[d[i] as usize] {
+                            p.push((b'0' + v) as char);
+                        }
+                        p.push(if lm >> i & 1 == 1 { 'b' } else { 'a' });
+                    }
+                    if let Some(v) = menu[d[len] as usize] {
+                        p.push((b'0' + v) as char);
+                    }
+                    if anchors & 2 == 2 {
+                        p.push('.');
+                    }
+                    out.push(p);
+                }
+            }
+        }
+    }
+    out
+}
+
+/// All words of length 1..=maxlen over {a,b}, each with all its case variants (2^len), shortest first.
+fn words_upto(maxlen: usize, with_case: bool) -> Vec<(Vec<char>, Vec<String>)> {
+    let mut out = vec![];
+    for len in 1..=maxlen {
+        for m in 0..(1u32 << len) {
+            let wl: Vec<char> = (0..len).map(|i| if m >> i & 1 == 1 { 'b' } else { 'a' }).collect();
+            out.push((wl.clone(), case_variants(&wl, with_case)));
+        }
+    }
+    out
+}
+fn case_variants(wl: &[char], all: bool) -> Vec<String> {
+    let len = wl.len();
+    if !all || len > 10 {
+        let lower: String = wl.iter().collect();
+        let upper = lower.to_ascii_uppercase();
+        let mixed: String = wl.iter().enumerate().map(|(i, c)| if i % 2 == 0 { c.to_ascii_uppercase() } else { *c }).collect();
+        let mut v = vec![lower, upper, mixed];
+        v.dedup();
+        return v;
+    }
+    (0..(1u32 << len)).map(|u| wl.iter().enumerate().map(|(i, c)| if u >> i & 1 == 1 { c.to_ascii_uppercase() } else { *c }).collect()).collect()
+}
+
+/// Every `\hyphenation` entry for the words over {a,b} of length lo..=hi: each subset of the interior
+/// positions, plus (for the first word of each length) a leading and a trailing hyphen, which TeX
+/// accepts and ignores.
+fn exception_menu(lo: usize, hi: usize) -> Vec<String> {
+    let mut out = vec![];
+    for len in lo..=hi {
+        for m in 0..(1u32 << len) {
+            let w: Vec<char> = (0..len).map(|i| if m >> i & 1 == 1 { 'b' } else { 'a' }).collect();
+            for hm in 0..(1u32 << (len - 1)) {
+                let mut s = String::new();
+                for (i, c) in w.iter().enumerate() {
+                    if i > 0 && hm >> (i - 1) & 1 == 1 {
+                        s.push('-');
+                    }
+                    s.push(*c);
+                }
+                out.push(s.clone());
+                if m == 1 && hm == 0 {
+                    out.push(format!("-{s}"));
+                    out.push(format!("{s}-"));
+                }
+            }
+        }
+    }
+    out
+}
+
+/// The words worth looking up for an exception entry: every case variant of the word itself, and its
+/// neighbours (one letter more at either end, one letter less) to see that the entry does not leak.
+fn words_around(entry: &str) -> Vec<(Vec<char>, Vec<String>)> {
+    let w: Vec<char> = entry.chars().filter(|c| *c != '-').map(|c| c.to_ascii_lowercase()).collect();
+    let mut out = vec![(w.clone(), case_variants(&w, true))];
+    for extra in ['a', 'b'] {
+        let mut x = w.clone();
+        x.push(extra);
+        out.push((x.clone(), vec![x.iter().collect()]));
+        let mut y = vec![extra];
+        y.extend(w.iter().copied());
+        out.push((y.clone(), vec![y.iter().collect()]));
+    }
+    if w.len() > 1 {
+        let x = w[..w.len() - 1].to_vec();
+        out.push((x.clone(), vec![x.iter().collect()]));
+        let y = w[1..].to_vec();
+        out.push((y.clone(), vec![y.iter().collect()]));
+    }
+    out
+}
+
+// ---------------------------------------------------------------- self-validation of the model
+
+/// The repository's own TeX-derived expectations (crates/hyphenate/src/lib.rs, `hyphenation_tests!`
+/// and `explanation_tests!`), replayed through the model with plain TeX's patterns and exceptions.
+fn self_validate(ctx: &mut Ctx, plain: &Liang) {
+    let cases = [
+        ("record", "record"),
+        ("hyphenation", "hy-phen-ation"),
+        ("concatenation", "con-cate-na-tion"),
+        ("supercalifragilisticexpialidocious", "su-per-cal-ifrag-ilis-tic-ex-pi-ali-do-cious"),
+        ("bachelor", "bach-e-lor"),
+        ("echelon", "ech-e-lon"),
+        ("toothaches", "toothaches"),
+        ("campfire", "camp-fire"),
+        ("biorhythm", "biorhyth-m"),
+        ("algorithm", "al-go-rith-m"),
+        ("pneumonoultramicroscopicsilicovolcanoconiosis", "p-neu-monoul-tra-mi-cro-scop-ic-sil-i-co-vol-canoco-nio-sis"),
+        ("project", "project"),
+        ("present", "present"),
+        ("table", "ta-ble"),
+        ("Table", "Ta-ble"),
+        ("ach", "ach"),
+        ("Aaronic", "Aa-ron-ic"),
+        ("Abelia", "A-beli-a"),
+        ("William", "William"),
+        ("chaffless", "chaf-f-less"),
+    ];
+    for (w, want) in cases {
+        let chars: Vec<char> = w.chars().collect();
+        let pos = plain.positions(&chars, &ascii_lc, 1, 1).unwrap();
+        let mut got = String::new();
+        for (i, c) in chars.iter().enumerate() {
+            if pos.contains(&i) {
+                got.push('-');
+            }
+            got.push(*c);
+        }
+        if got != want {
+            ctx.machinery_error(format!("model self-validation (hyphenation_tests::{w}): model gives {got}, the repository's TeX expectation is {want}"));
+        }
+    }
+    // explanation_tests: aggregate scores (slot 0 forced to 0, the slot after the word dropped)
+    for (w, want) in [("difficult", vec![0u8, 1, 4, 1, 0, 3, 0, 4, 0]), ("cove", vec![0, 0, 4, 1]), ("antce", vec![0, 2, 4, 4, 0])] {
+        let chars: Vec<char> = w.chars().collect();
+        let mut s = plain.pattern_scores(&chars);
+        s[0] = 0;
+        s.truncate(chars.len());
+        if s != want {
+            ctx.machinery_error(format!("model self-validation (explanation_tests::{w}): model scores {s:?}, repository {want:?}"));
+        }
+    }
+}
+
+// ---------------------------------------------------------------- main
+
+const NONE: Option<u8> = None;
+
 fn main() {
-    eprintln!("c13: check not built yet");
-    std::process::exit(2);
+    let mut ctx = Ctx::new("C13", Level::Exploration);
+    ctx.assume("letters are ASCII and the lower-case map is hyphenate::AsciiLowerCaser (plain TeX's \\lccode restricted to ASCII); other LowerCaser implementations are not explored");
+    ctx.assume("pattern sets with two patterns on the same (anchored) letter string are outside the domain: TeX §963 rejects the second as \"Duplicate pattern\" (skipped and counted)");
+    ctx.assume("patterns are well formed in the sense of TeX §962: letters, at most one digit per slot, \".\" only at the ends, no digit outside the dots; words contain letters only (a string with a non-letter is never a word, TeX §897)");
+    ctx.assume("an exception entry with a leading or trailing hyphen is legal and the hyphen has no effect (TeX §938 records position 0 / n, §923 clears them)");
+
+    let repo = std::env::var("VERIF_REPO").unwrap_or("/repo".into());
+    let plain_patterns = std::fs::read_to_string(format!("{repo}/crates/hyphenate/src/plain_tex_patterns.txt")).unwrap_or_default();
+    let plain_exceptions = std::fs::read_to_string(format!("{repo}/crates/hyphenate/src/plain_tex_exceptions.txt")).unwrap_or_default();
+    let mut plain = Liang::new();
+    let errs = plain.add_patterns(&plain_patterns, &ascii_lc);
+    for e in plain_exceptions.split_whitespace() {
+        plain.add_exception(e, &ascii_lc);
+    }
+    if plain.patterns.len() < 4000 || !errs.is_empty() {
+        ctx.machinery_error(format!("cannot load plain TeX's patterns from {repo}: {} patterns, errors {:?}", plain.patterns.len(), errs.iter().take(3).collect::<Vec<_>>()));
+    }
+
+    if let Some((_fam, case)) = ctx.replay_case() {
+        let mut acc = Acc::default();
+        let strs = |v: &Value| -> Vec<String> { v.as_array().map(|a| a.iter().filter_map(|x| x.as_str().map(String::from)).collect()).unwrap_or_default() };
+        let case = if case["case"].is_object() { case["case"].clone() } else { case };
+        let word = case["word"].as_str().unwrap_or("").to_string();
+        let wl: Vec<char> = word.chars().map(|c| c.to_ascii_lowercase()).collect();
+        if case["kind"] == "plain" {
+            check_plain(0, &plain, &plain_patterns, &plain_exceptions, &[(wl, vec![word])], &mut acc);
+        } else {
+            let cfg = Config { patterns: strs(&case["patterns"]), exceptions: strs(&case["exceptions"]), exceptions_first: case["exceptions_first"].as_bool().unwrap_or(false) };
+            check_config(0, &cfg, &[(wl, vec![word])], &mut acc);
+        }
+        ctx.finish_replay(acc);
+    }
+
+    self_validate(&mut ctx, &plain);
+
+    let wide_menu = [NONE, Some(0), Some(1), Some(2), Some(3), Some(8), Some(9)];
+    let design_menu = [NONE, Some(1), Some(2), Some(3), Some(8), Some(9)];
+    let pair_menu = [NONE, Some(1), Some(2), Some(9)];
+    let small_menu = [NONE, Some(2), Some(9)];
+
+    // F1: every single pattern
+    {
+        let u = pattern_universe(3, &wide_menu);
+        let words = words_upto(ctx.pick(5, 6), true);
+        let nw: usize = words.iter().map(|w| w.1.len()).sum();
+        let (u, words) = (&u, &words);
+        ctx.family("single-pattern", &format!("each of the {} patterns with 1..3 letters over {{a,b}}, optional '.' at either end, a digit from {{none,0,1,2,3,8,9}} in every slot (>= 1 digit) x all {} words of length 1..{} over {{a,b,A,B}}", u.len(), nw, ctx.pick(5, 6)), u.len() as u64, |i, acc| {
+            let cfg = Config { patterns: vec![u[i as usize].clone()], ..Default::default() };
+            check_config(i, &cfg, words, acc);
+            if i % 9973 == 11 {
+                acc.sample(i, || json!({"patterns": cfg.patterns, "words": nw}));
+            }
+        });
+    }
+    // F2: every pair of patterns
+    {
+        let u = pattern_universe(2, &pair_menu);
+        let words = words_upto(ctx.pick(4, 5), true);
+        let nw: usize = words.iter().map(|w| w.1.len()).sum();
+        let k = u.len() as u64;
+        let (u, words) = (&u, &words);
+        ctx.family("pattern-pairs", &format!("every unordered pair from the {} patterns with 1..2 letters over {{a,b}}, anchors, digits {{none,1,2,9}} (index space {}^2, the lower triangle is empty) x all {} words of length 1..{} over {{a,b,A,B}}", k, k, nw, ctx.pick(4, 5)), k * k, |idx, acc| {
+            let (i, j) = (idx / k, idx % k);
+            if j <= i {
+                return;
+            }
+            // the later pattern comes first in every other pair: load order must not matter
+            let cfg = if (i + j) % 2 == 0 { Config { patterns: vec![u[i as usize].clone(), u[j as usize].clone()], ..Default::default() } } else { Config { patterns: vec![u[j as usize].clone(), u[i as usize].clone()], ..Default::default() } };
+            check_config(idx, &cfg, words, acc);
+            if idx % 99991 == 17 {
+                acc.sample(idx, || json!({"patterns": cfg.patterns}));
+            }
+        });
+    }
+    // F2b (thorough): a 3-letter pattern with a 1..2-letter pattern, and triples over a reduced digit set
+    if !ctx.quick() {
+        let u3: Vec<String> = pattern_universe(3, &small_menu).into_iter().filter(|p| p.chars().filter(|c| c.is_ascii_alphabetic()).count() == 3).collect();
+        let u2 = pattern_universe(2, &pair_menu);
+        let words = words_upto(5, true);
+        let (k3, k2) = (u3.len() as u64, u2.len() as u64);
+        let (u3, u2, words) = (&u3, &u2, &words);
+        ctx.family("pattern-pairs-3x2", &format!("every pair of one of the {k3} 3-letter patterns (digits {{none,2,9}}) with one of the {k2} 1..2-letter patterns (digits {{none,1,2,9}}) x all words of length 1..5 over {{a,b,A,B}}"), k3 * k2, |idx, acc| {
+            let cfg = Config { patterns: vec![u3[(idx / k2) as usize].clone(), u2[(idx % k2) as usize].clone()], ..Default::default() };
+            check_config(idx, &cfg, words, acc);
+        });
+        let us = pattern_universe(2, &small_menu);
+        let k = us.len() as u64;
+        let words = words_upto(3, true);
+        let (us, words) = (&us, &words);
+        ctx.family("pattern-triples", &format!("every unordered triple from the {k} patterns with 1..2 letters, anchors, digits {{none,2,9}} (index space {k}^3, only i<j<l is used) x all words of length 1..3 over {{a,b,A,B}}"), k * k * k, |idx, acc| {
+            let (i, j, l) = (idx / (k * k), idx / k % k, idx % k);
+            if !(i < j && j < l) {
+                return;
+            }
+            let cfg = Config { patterns: vec![us[i as usize].clone(), us[j as usize].clone(), us[l as usize].clone()], ..Default::default() };
+            check_config(idx, &cfg, words, acc);
+        });
+    }
+    // F3: one exception entry against every single pattern (D11 lives here)
+    {
+        let mut u = vec![String::new()];
+        u.extend(pattern_universe(3, &design_menu));
+        let ex = exception_menu(2, ctx.pick(3, 4));
+        let around: Vec<Vec<(Vec<char>, Vec<String>)>> = ex.iter().map(|e| words_around(e)).collect();
+        let (nu, ne) = (u.len() as u64, ex.len() as u64);
+        let (u, ex, around) = (&u, &ex, &around);
+        ctx.family("exception-vs-pattern", &format!("(no pattern or one of the {} patterns with 1..3 letters, digits {{none,1,2,3,8,9}}) x one of the {} exception entries (every word of length 2..{} over {{a,b}} with every hyphen placement, plus leading/trailing hyphen) x the entry's word in every letter case and its 6 neighbours (one letter more/less at either end)", nu - 1, ne, ctx.pick(3, 4)), nu * ne, |idx, acc| {
+            let (pi, ei) = ((idx / ne) as usize, (idx % ne) as usize);
+            let cfg = Config { patterns: if u[pi].is_empty() { vec![] } else { vec![u[pi].clone()] }, exceptions: vec![ex[ei].clone()], exceptions_first: false };
+            check_config(idx, &cfg, &around[ei], acc);
+            if idx % 99991 == 23 {
+                acc.sample(idx, || json!({"patterns": cfg.patterns, "exceptions": cfg.exceptions}));
+            }
+        });
+    }
+    // F4: one exception entry against every pair of patterns (reduced digit set)
+    {
+        let u = pattern_universe(2, &small_menu);
+        let ex = if ctx.quick() {
+            let mut e = exception_menu(2, 2);
+            e.extend(["aba", "a-ba", "ab-a", "a-b-a", "b-aa"].iter().map(|s| s.to_string()));
+            e
+        } else {
+            exception_menu(2, 4)
+        };
+        let around: Vec<Vec<(Vec<char>, Vec<String>)>> = ex.iter().map(|e| words_around(e)).collect();
+        let (k, ne) = (u.len() as u64, ex.len() as u64);
+        let (u, ex, around) = (&u, &ex, &around);
+        ctx.family("exception-vs-pair", &format!("every unordered pair from the {k} patterns with 1..2 letters, digits {{none,2,9}} x one of {ne} exception entries ({}) x the entry's word in every case and its neighbours", if ctx.quick() { "all of length 2, five of length 3" } else { "all of length 2..4" }), k * k * ne, |idx, acc| {
+            let (i, j, ei) = (idx / (k * ne), idx / ne % k, (idx % ne) as usize);
+            if j <= i {
+                return;
+            }
+            let cfg = Config { patterns: vec![u[i as usize].clone(), u[j as usize].clone()], exceptions: vec![ex[ei].clone()], exceptions_first: false };
+            check_config(idx, &cfg, &around[ei], acc);
+        });
+    }
+    // F5: two exception entries (same word twice: the later entry wins, TeX §941; two words: independent)
+    {
+        let ex = exception_menu(2, ctx.pick(3, 4));
+        let pats: Vec<String> = ["", "a1", "1b", "a2b", "a9b", ".a8", "b9.", "a1b1", "1a2a1", ".a1b."].iter().map(|s| s.to_string()).collect();
+        let (ne, np) = (ex.len() as u64, pats.len() as u64);
+        let (ex, pats) = (&ex, &pats);
+        ctx.family("exception-lists-of-two", &format!("every ordered pair of the {ne} exception entries (length 2..{}) x {np} pattern sets of size <= 1 x both entries' words in every case and their neighbours", ctx.pick(3, 4)), ne * ne * np, |idx, acc| {
+            let (a, b, pi) = ((idx / (ne * np)) as usize, (idx / np % ne) as usize, (idx % np) as usize);
+            let cfg = Config { patterns: if pats[pi].is_empty() { vec![] } else { vec![pats[pi].clone()] }, exceptions: vec![ex[a].clone(), ex[b].clone()], exceptions_first: false };
+            let strip = |s: &str| s.replace('-', "");
+            if strip(&ex[a]) == strip(&ex[b]) && ex[a] != ex[b] {
+                acc.count("same_word_entered_twice");
+            }
+            let mut words = words_around(&ex[a]);
+            if strip(&ex[a]) != strip(&ex[b]) {
+                words.extend(words_around(&ex[b]));
+            }
+            check_config(idx, &cfg, &words, acc);
+        });
+    }
+    // F6: long patterns: the 16-zero run encoding of the op stream, words up to 40 letters
+    {
+        let mut pats: Vec<String> = vec![];
+        let lens: Vec<usize> = ctx.pick(vec![14, 15, 16, 17, 18, 30, 31, 32, 33, 34], (1..=50).chain([62, 63]).collect());
+        for &l in &lens {
+            for anchors in 0..4 {
+                for d in ['1', '8', '9'] {
+                    // one digit in each single slot
+                    for slot in 0..=l {
+                        pats.push(long_pattern(l, anchors, &[(slot, d)]));
+                    }
+                    // a digit at both ends, and the last two slots
+                    pats.push(long_pattern(l, anchors, &[(0, d), (l, '1')]));
+                    pats.push(long_pattern(l, anchors, &[(l - 1, '2'), (l, d)]));
+                }
+                if [15, 16, 17, 31, 32, 33].contains(&l) {
+                    for s1 in 0..=l {
+                        for s2 in (s1 + 1)..=l {
+                            pats.push(long_pattern(l, anchors, &[(s1, '1'), (s2, '3')]));
+                        }
+                    }
+                }
+            }
+        }
+        let maxw = ctx.pick(40usize, 64);
+        let mut words: Vec<(Vec<char>, Vec<String>)> = vec![];
+        for n in 1..=maxw {
+            let wl = vec!['a'; n];
+            words.push((wl.clone(), case_variants(&wl, false)));
+        }
+        // a 'b' inside the run breaks every match that covers it
+        for n in [16usize, 17, 33, 40] {
+            for at in [0, n / 2, n - 1] {
+                let mut wl = vec!['a'; n];
+                wl[at] = 'b';
+                words.push((wl.clone(), vec![wl.iter().collect()]));
+            }
+        }
+        let (pats, words) = (&pats, &words);
+        ctx.family("long-patterns", &format!("{} patterns a^L for L in {:?}: anchors x a digit from {{1,8,9}} in each single slot, at both ends, in the last two slots, and (L in 15,16,17,31,32,33) every pair of slots x words a^n, A^n, AaAa.. for n = 1..{maxw} and runs broken by one b", pats.len(), if lens.len() > 12 { vec![lens[0], *lens.last().unwrap()] } else { lens.clone() }), pats.len() as u64, |i, acc| {
+            let cfg = Config { patterns: vec![pats[i as usize].clone()], ..Default::default() };
+            let zero_run = {
+                let p = liang::parse_pattern(&cfg.patterns[0], &ascii_lc).unwrap();
+                let mut run = 0;
+                let mut best = 0;
+                for d in &p.digits {
+                    if *d == 0 {
+                        run += 1;
+                    } else {
+                        best = best.max(run);
+                        run = 0;
+                    }
+                }
+                best.max(run)
+            };
+            if zero_run >= 16 {
+                acc.count("pattern_with_16_or_more_zero_slots_in_a_row");
+            }
+            check_config(i, &cfg, words, acc);
+            if i % 997 == 3 {
+                acc.sample(i, || json!({"patterns": cfg.patterns}));
+            }
+        });
+        // a long pattern together with a short one and an exception on a long word
+        let longs: Vec<String> = [16usize, 17, 32].iter().flat_map(|l| [long_pattern(*l, 0, &[(*l, '1')]), long_pattern(*l, 1, &[(0, '9'), (*l - 1, '1')]), long_pattern(*l, 2, &[(1, '1'), (*l, '9')])]).collect();
+        let shorts = pattern_universe(2, &small_menu);
+        let excs: Vec<String> = vec![String::new(), format!("{}-{}", "a".repeat(16), "a"), format!("a-{}", "a".repeat(31)), "a".repeat(20)];
+        let (nl, ns, ne) = (longs.len() as u64, shorts.len() as u64, excs.len() as u64);
+        let (longs, shorts, excs) = (&longs, &shorts, &excs);
+        ctx.family("long-with-short", &format!("{nl} long patterns (L = 16,17,32) x {ns} patterns with 1..2 letters (digits {{none,2,9}}) x {ne} exception lists (none, 17 letters, 32 letters, 20 letters without hyphen) x the long-pattern words"), nl * ns * ne, |idx, acc| {
+            let (li, si, ei) = ((idx / (ns * ne)) as usize, (idx / ne % ns) as usize, (idx % ne) as usize);
+            let cfg = Config { patterns: vec![longs[li].clone(), shorts[si].clone()], exceptions: if excs[ei].is_empty() { vec![] } else { vec![excs[ei].clone()] }, exceptions_first: false };
+            check_config(idx, &cfg, words, acc);
+        });
+    }
+    // F7: plain TeX's own 4447 patterns and 14 exceptions (real prefix sharing in the trie)
+    {
+        let mut keys: Vec<String> = plain.patterns.iter().map(|p| p.key.iter().filter(|c| **c != EDGE).collect::<String>()).collect();
+        keys.sort();
+        keys.dedup();
+        let mut vocab: Vec<String> = vec![];
+        for k in &keys {
+            vocab.push(k.clone());
+            if !ctx.quick() || k.len() >= 4 {
+                for (pre, suf) in [("", "s"), ("un", ""), ("", "ing"), ("re", "ed")] {
+                    vocab.push(format!("{pre}{k}{suf}"));
+                }
+            }
+        }
+        for e in plain_exceptions.split_whitespace() {
+            let w = e.replace('-', "");
+            vocab.push(format!("{w}s"));
+            vocab.push(w);
+        }
+        for w in ["difficult", "office", "shuffling", "waffle", "affliction", "fifty", "efficient", "contents", "hyphenation", "baffling", "stiffly", "chaff", "flyleaf", "halfback", "shelfful", "avatar", "fluffiest", "raffish", "offhand", "supercalifragilisticexpialidocious", "pneumonoultramicroscopicsilicovolcanoconiosis"] {
+            vocab.push(w.to_string());
+        }
+        vocab.sort();
+        vocab.dedup();
+        let words: Vec<(Vec<char>, Vec<String>)> = vocab.iter().map(|w| (w.chars().collect::<Vec<char>>(), case_variants(&w.chars().collect::<Vec<char>>(), false))).collect();
+        let n = words.len() as u64;
+        let (words, plain, pp, pe) = (&words, &plain, &plain_patterns, &plain_exceptions);
+        ctx.family_ranges("plain-tex-patterns", &format!("plain TeX's {} patterns and 14 exceptions x {} words (the letter string of every pattern, with affixes s/un/ing/re..ed, the exception words, a ligature vocabulary) in lower, upper and alternating case", plain.patterns.len(), n), n, |r, acc| {
+            check_plain(r.start, plain, pp, pe, &words[r.start as usize..r.end as usize], acc);
+        });
+    }
+    // F8: configurations DESIGN did not list: upper-case letters inside \hyphenation entries (TeX §937
+    // stores lc_code), and exceptions entered before the patterns.
+    {
+        let ex = exception_menu(2, 3);
+        let cased: Vec<String> = ex.iter().flat_map(|e| {
+            let n = e.chars().count();
+            (1..(1u32 << n)).filter_map(move |m| {
+                let s: String = e.chars().enumerate().map(|(i, c)| if m >> i & 1 == 1 { c.to_ascii_uppercase() } else { c }).collect();
+                if s == *e { None } else { Some(s) }
+            })
+        }).collect();
+        let mut cased = cased;
+        cased.sort();
+        cased.dedup();
+        let pats: Vec<String> = ["", "a1", "1b", "a1b", "b1a", "a2b", "1a1"].iter().map(|s| s.to_string()).collect();
+        let (ne, np) = (cased.len() as u64, pats.len() as u64);
+        let (cased, pats) = (&cased, &pats);
+        ctx.family("exception-entry-case", &format!("{ne} exception entries of length 2..3 with at least one upper-case letter x {np} pattern sets of size <= 1 x the word in every case and its neighbours"), ne * np, |idx, acc| {
+            let (ei, pi) = ((idx / np) as usize, (idx % np) as usize);
+            let cfg = Config { patterns: if pats[pi].is_empty() { vec![] } else { vec![pats[pi].clone()] }, exceptions: vec![cased[ei].clone()], exceptions_first: false };
+            acc.count("exception_entry_with_upper_case_letter");
+            check_config(idx, &cfg, &words_around(&cased[ei]), acc);
+        });
+        let mut u = vec![String::new()];
+        u.extend(pattern_universe(ctx.pick(2, 3), &design_menu));
+        let around: Vec<Vec<(Vec<char>, Vec<String>)>> = ex.iter().map(|e| words_around(e)).collect();
+        let (nu, ne) = (u.len() as u64, ex.len() as u64);
+        let (u, ex, around) = (&u, &ex, &around);
+        ctx.family("exceptions-before-patterns", &format!("as exception-vs-pattern ({} patterns with 1..{} letters x {ne} entries of length 2..3), but insert_exception is called before load_patterns", nu - 1, ctx.pick(2, 3)), nu * ne, |idx, acc| {
+            let (pi, ei) = ((idx / ne) as usize, (idx % ne) as usize);
+            let cfg = Config { patterns: if u[pi].is_empty() { vec![] } else { vec![u[pi].clone()] }, exceptions: vec![ex[ei].clone()], exceptions_first: true };
+            check_config(idx, &cfg, &around[ei], acc);
+        });
+    }
+
+    ctx.require("two_patterns_score_same_slot", "two patterns put a non-zero digit on the same slot of the word (the maximum decides)");
+    ctx.require("even_digit_inhibits_odd", "an even maximum suppresses an odd digit of another pattern (or alignment)");
+    ctx.require("anchored_pattern_matches", "a pattern anchored with '.' matches at the word edge");
+    ctx.require("anchor_rejects_inner_occurrence", "the letters of an anchored pattern occur in the word but not at the anchored edge");
+    ctx.require("prefix_sharing_patterns_both_match", "two patterns, one's letter string a prefix of the other's, both match the word (shared trie path)");
+    ctx.require("exception_contradicts_patterns", "an exception word whose listed hyphens differ from what the patterns alone give");
+    ctx.require("exception_word_with_pattern_digit_gt6", "an exception word matched by a pattern digit above 6 (the D11 class)");
+    ctx.require("same_word_entered_twice", "the same word entered twice in the exception list with different hyphens");
+    ctx.require("upper_case_word_nontrivial", "a word with upper-case letters that has a matching pattern or exception");
+    ctx.require("pattern_with_16_or_more_zero_slots_in_a_row", "a pattern whose op stream needs the 16-zero run byte");
+    ctx.require("skipped_duplicate_pattern", "pattern sets with a duplicate letter string were met and skipped");
+    ctx.finish("one evaluation = one calculate_indices lookup of one word under one (patterns, exceptions) configuration, compared with matching by definition; non-trivial = some pattern puts a non-zero digit on an interior slot of the word, or the word is in the exception list");
+}
+
+fn long_pattern(l: usize, anchors: u32, digits: &[(usize, char)]) -> String {
+    let mut p = String::new();
+    if anchors & 1 == 1 {
+        p.push('.');
+    }
+    for i in 0..=l {
+        if let Some((_, d)) = digits.iter().find(|(s, _)| *s == i) {
+            p.push(*d);
+        }
+        if i < l {
+            p.push('a');
+        }
+    }
+    if anchors & 2 == 2 {
+        p.push('.');
+    }
+    p
+}
+
+thread_local! {
+    static PLAIN_REAL: std::cell::RefCell<Option<Hyphenator>> = const { std::cell::RefCell::new(None) };
+}
+
+/// Lookups under plain TeX's patterns; the real hyphenator is built once per thread.
+fn check_plain(idx0: u64, plain: &Liang, patterns: &str, exceptions: &str, words: &[(Vec<char>, Vec<String>)], acc: &mut Acc) {
+    let lc = AsciiLowerCaser::default();
+    PLAIN_REAL.with(|cell| {
+        let mut slot = cell.borrow_mut();
+        if slot.is_none() {
+            // built the way Hyphenator::plain_tex_en_us does, but from the files of VERIF_REPO
+            let mut h = Hyphenator::default();
+            h.load_patterns(patterns);
+            h.insert_exceptions(exceptions);
+            *slot = Some(h);
+        }
+        let real = slot.as_ref().unwrap();
+        for (k, (wl, variants)) in words.iter().enumerate() {
+            let idx = idx0 + k as u64;
+            let n = wl.len();
+            let hyf = plain.hyf(wl);
+            let want: Vec<usize> = (1..n).filter(|j| hyf[*j] % 2 == 1).collect();
+            let ps = plain.pattern_scores(wl);
+            let exc = plain.exception_for(wl);
+            let mut d11 = None;
+            if let Some(e) = exc {
+                acc.count("plain_tex_exception_word");
+                if (0..=n).any(|j| if e.positions.contains(&j) { ps[j] > 7 } else { ps[j] > 6 }) {
+                    let mut adj = plain.clone();
+                    adj.exceptions_as_patterns = true;
+                    let h = adj.hyf(wl);
+                    d11 = Some((1..n).filter(|j| h[*j] % 2 == 1).collect::<Vec<usize>>());
+                }
+            }
+            for w in variants {
+                acc.eval();
+                if (1..n).any(|j| ps[j] != 0) || exc.is_some() {
+                    acc.nontrivial();
+                }
+                acc.class(&format!("plain n={} hyphens={}", n.min(12), want.len()));
+                let case = || json!({"kind": "plain", "word": w, "reproduce": format!("hyphenate::Hyphenator::plain_tex_en_us().calculate_indices(&hyphenate::AsciiLowerCaser::default(), {w:?})")});
+                match catch(|| real.calculate_indices(&lc, w).collect::<Vec<usize>>()) {
+                    Err(p) => acc.fail(idx, case(), format!("{want:?}"), p.describe(), "calculate_indices panicked"),
+                    Ok(got) => {
+                        if got != want {
+                            if d11.as_ref() == Some(&got) {
+                                acc.known("D11", idx, || json!({"case": case(), "model": want, "observed": got}));
+                            } else {
+                                acc.fail(idx, case(), format!("{want:?}"), format!("{got:?}"), "positions differ from Liang's definition under plain TeX's patterns");
+                            }
+                        }
+                    }
+                }
+            }
+            if k == 0 {
+                acc.sample(idx, || json!({"plain_word": wl.iter().collect::<String>(), "positions": want}));
+            }
+        }
+    });
 }
